@@ -8,10 +8,8 @@ package main
 
 import (
 	"fmt"
-	"os"
 	"runtime"
 	"runtime/debug"
-	"runtime/pprof"
 	"strconv"
 	"strings"
 
@@ -1145,9 +1143,9 @@ type bounds struct {
 
 func boundsFor(tier string) bounds {
 	if tier == "thorough" {
-		return bounds{tok: 3, subj: 5, tok2: 2, subj2: 7, tok3: 4, subj3: 3, curSubj: 6, plain: 5}
+		return bounds{tok: 3, subj: 5, tok2: 2, subj2: 7, tok3: 4, subj3: 4, curSubj: 6, plain: 5}
 	}
-	return bounds{tok: 3, subj: 4, tok2: 2, subj2: 5, curSubj: 5, plain: 4}
+	return bounds{tok: 3, subj: 3, tok2: 2, subj2: 5, curSubj: 5, plain: 4}
 }
 
 // tune: every library call allocates a few small objects on a tiny live heap,
@@ -1164,18 +1162,6 @@ var ballast []byte
 
 func main() {
 	tune()
-	if pf := os.Getenv("C15_PROF"); pf != "" {
-		f, _ := os.Create(pf)
-		pprof.StartCPUProfile(f)
-		a := newAcc()
-		for i := uint64(100); i < 140; i++ {
-			pat := seqPattern(i)
-			checkPattern(pat, 4, alphabetFor(pat), a)
-		}
-		pprof.StopCPUProfile()
-		fmt.Println(a.evals)
-		return
-	}
 	core.Main(&core.Check{
 		ID:    "C15",
 		Level: "model_checking",
